@@ -124,6 +124,8 @@ class C03(InputProp):
         fams.append(Product(names, ["colon", "pipe"], [0, 1, 2], name="fanout"))
         # acyclic universes that multiply: t_i includes t_(i+1) f times, n levels deep (f^n inclusions from n short templates)
         fams.append(Product([2, 3], [4, 8, 12, 16, 20, 30, 45] if tier != "quick" else [4, 12, 20, 45], ["plain", "via-arg", "via-if"], name="multiply"))
+        # every function nested in its own k-th argument (an argument that is expanded twice doubles the work per level)
+        fams.append(Product(names, [0, 1, 2], [12, 25] if tier == "quick" else [12, 25, 40], name="selfnest"))
         # nesting depth: every opener of the template language nested n times (closed and left open)
         fams.append(Product(NEST_OPENERS, NEST_DEPTHS if tier != "quick" else NEST_DEPTHS[:4], ["closed", "open"], name="nest"))
         # operator chains of #expr / #ifexpr over operands chosen to grow (a chain is what multiplies, one operand never does)
@@ -173,6 +175,13 @@ class C03(InputProp):
             pages["t%d" % n] = "x"
             pages["E"] = "{{{1}}}"
             return "{{t0}}", self.db("en", pages), sum(map(len, pages.values())) + 65536 * 8  # (the output may reach the inclusion limit)
+        if fam == "selfnest":
+            name, pos, depth = c
+            text = "x"
+            for _ in range(depth):
+                args = ["a"] * pos + [text]
+                text = "{{%s:%s}}" % (name, "|".join(args))
+            return text, self.db("en"), 0
         if fam == "nest":
             (o, cl), n, closed = c
             return o * n + "x" + (cl * n if closed == "closed" else ""), self.db("en"), 0
